@@ -149,6 +149,10 @@ class WcMatch(Generic[AnyStr]):
     def _compile(self, file_pattern: AnyStr, folder_exclude_pattern: AnyStr) -> None:
         """Compile patterns."""
 
+        for pattern in (file_pattern, folder_exclude_pattern):
+            if isinstance(pattern, (str, bytes)) and isinstance(pattern, bytes) != self.is_bytes:
+                raise TypeError('The root directory and the patterns must be of the same type (str or bytes)')
+
         if self.file_check is None:
             if not file_pattern:
                 self.file_check = _wcmatch.WcRegexp(
